@@ -389,6 +389,10 @@ func Parse(block []rune, pos int) (pt ParsedTokens, syntaxHighlighted string) {
 			}
 
 		case '>':
+			if i > 0 && block[i-1] == '~' && !pt.Escaped && !pt.QuoteSingle && !pt.QuoteDouble && pt.QuoteBrace == 0 {
+				// `~>` writes to a file
+				pt.Unsafe = true
+			}
 			switch {
 			case pt.Escaped:
 				escaped()
